@@ -25,7 +25,7 @@ import (
 
 type c02Value struct {
 	Name string
-	Val  interface{}       // what was sealed
+	Val  interface{}        // what was sealed
 	New  func() interface{} // fresh target for Unmarshal
 }
 
